@@ -49,6 +49,7 @@ PostOK ==
          /\ pool' = Ev.st.pool
          /\ att' = Ev.st.att
          /\ ~Ev.st.renewed
+         /\ tipd' = Ev.st.tipd
          /\ Ev.st.others      \* every contract this one was renewed from is still exactly as it was frozen
          /\ lock' = 0
     ELSE TRUE
@@ -70,7 +71,7 @@ TraceInit ==
     /\ pex = {}
     /\ att = [a \in Accounts |-> <<>>]
     /\ lock = 0
-    /\ olds = <<>>
+    /\ olds, tipd = <<>>
     /\ sess = [s \in Sessions |-> IdleS]
     /\ act = [op |-> "Init"]
     /\ reply = NoneR
@@ -92,6 +93,7 @@ TReset ==
     /\ lock' = 0
     /\ holder' = 0
     /\ olds' = <<>>
+    /\ tipd' = Ev.tipd
     /\ sess' = [s \in Sessions |-> IdleS]
     /\ act' = [op |-> "Reset"]
     /\ reply' = NoneR
@@ -100,6 +102,7 @@ TReset ==
 (* RPC level *)
 RPC(A) == A /\ Same /\ UNCHANGED holder
 
+TMine      == Step("Mine")      /\ RPC(Mine(Ev.n))
 TDeliver   == Step("Deliver")   /\ RPC(Deliver(Ev.s))
 TFinish    == Step("Finish")    /\ RPC(Finish(Ev.s))
 TAbort     == Step("Abort")     /\ RPC(Abort(Ev.s))
@@ -162,10 +165,10 @@ TCommit ==
     /\ acct' = Ev.st.acct
     /\ pool' = Ev.st.pool
     /\ TotalBal' - TotalBal = (IF Ev.kind \in {"CA", "CP"} THEN Ev.cost ELSE 0)
-    /\ UNCHANGED <<stored, pex, att, olds, lock, holder>> /\ Quiet
+    /\ UNCHANGED <<stored, pex, att, olds, tipd, lock, holder>> /\ Quiet
 
 TraceNext ==
-    \/ TReset \/ TDeliver \/ TFinish \/ TAbort \/ TTruncated
+    \/ TReset \/ TMine \/ TDeliver \/ TFinish \/ TAbort \/ TTruncated
     \/ TBeginFree \/ TRound2Free \/ TBeginAppend \/ TRound2Append \/ TBeginRoots \/ TBeginLatest
     \/ TBeginFund \/ TBeginRepl \/ TRound2Repl \/ TBeginAttach \/ TBeginDetach
     \/ TBeginRead \/ TBeginVerify \/ TBeginWrite \/ TBeginBalance
